@@ -1,6 +1,7 @@
 (* Stage 1 of the model, part 3: the program language shared with the harness, its generator,
    and [model_run] = interp o gen. *)
 From Coq Require Import ZArith List Bool.
+From PySnark Require Import GeneratedPoseidon.
 From PySnark.Model Require Import Lc Sym Gadgets Api.
 Import ListNotations.
 Open Scope Z_scope.
@@ -50,7 +51,11 @@ Inductive stmt :=
 | SPack (d : nat) (k : pschema) (src : nat)          (* regs[d] = schema.pack(regs[src]) *)
 | SUnpack (d : nat) (k : pschema) (src : nat)        (* regs[d] = schema.unpack(regs[src], 0) *)
 (* ---- runtime.snark ---- *)
-| SSnark (d : nat) (args : list rtree) (body : list stmt) (res : rtree).
+| SSnark (d : nat) (args : list rtree) (body : list stmt) (res : rtree)
+(* ---- pysnark.poseidon_hash / ggh_hash (parameter set / coefficient list chosen by the caller of the model) ---- *)
+| SPermute (d : nat) (ps : poseidon_params) (src : nat)        (* regs[d] = permute(regs[src]) *)
+| SPoseidon (d : nat) (ps : poseidon_params) (src : nat)       (* regs[d] = poseidon_hash(regs[src]) *)
+| SGgh (d : nat) (coeffs : list Z) (src : nat).                 (* regs[d] = ggh_hash(regs[src]); coeffs = SHA512_prng(0..) *)
       (* regs[d] = snark(fn)(args...) where fn binds its converted arguments to the argument registers, runs body, returns res *)
       (* for i in _range(start, regs[stop], max=maxv, checkstopmax=check): regs[ix] = i; body;   _endfor() *)
 
@@ -331,6 +336,58 @@ Definition out_plain (v : pyval) : G unit :=
   | _ => emit_out v
   end.
 
+(* ---------------- pysnark.poseidon_hash ---------------- *)
+(* one element of matmul(matrix, transpose([sponge])): result = LinComb.ZERO; result += m[k] * y[k] ... *)
+Definition mix_row (row : list Z) (st : list slc) : slc :=
+  fold_left (fun acc my => add acc (scale (snd my) (fst my))) (combine row st) ZERO.
+Definition mix (ps : poseidon_params) (st : list slc) : list slc := map (fun row => relin_modp (mix_row row st)) (matrix ps).
+Definition add_rc (rc : list Z) (st : list slc) : list slc := map (fun xy => addc (fst xy) (snd xy)) (combine st rc).
+Definition sbox (ps : poseidon_params) (x : slc) : G slc :=
+  if pa ps <? 0 then static_raise ValueError else pow_nat x (Z.to_nat (pa ps)).
+Definition full_round (ps : poseidon_params) (rc : list Z) (st : list slc) : G (list slc) :=
+  s1 <- mapM (sbox ps) (add_rc rc st) ;; ret (mix ps s1).
+Definition partial_round (ps : poseidon_params) (rc : list Z) (st : list slc) : G (list slc) :=
+  match add_rc rc st with
+  | [] => static_raise IndexError
+  | x0 :: rest => y0 <- sbox ps x0 ;; ret (mix ps (y0 :: rest))
+  end.
+Fixpoint rounds (f : list Z -> list slc -> G (list slc)) (rcs : list (list Z)) (st : list slc) : G (list slc) :=
+  match rcs with [] => ret st | rc :: rcs' => st' <- f rc st ;; rounds f rcs' st' end.
+Definition permute_m (ps : poseidon_params) (st : list slc) : G (list slc) :=
+  let half := Z.to_nat (R_F ps / 2) in
+  let rp := Z.to_nat (R_P ps) in
+  let rcs := round_constants ps in
+  s1 <- rounds (full_round ps) (firstn half rcs) st ;;
+  s2 <- rounds (partial_round ps) (firstn rp (skipn half rcs)) s1 ;;
+  rounds (full_round ps) (firstn half (skipn (half + rp) rcs)) s2.
+Definition as_lcs (l : list pyval) : option (list slc) :=
+  fold_right (fun v acc => match v, acc with
+                           | (PLC x | PBool _ x | PFxp _ x), Some r => Some (x :: r)
+                           | _, _ => None end) (Some []) l.
+Fixpoint chunks (fuel n : nat) (l : list slc) : list (list slc) :=
+  match fuel with O => [] | S f => match l with [] => [] | _ => firstn n l :: chunks f n (skipn n l) end end.
+Definition poseidon_hash_m (ps : poseidon_params) (ins : list slc) : G (list slc) :=
+  s <- get ;;
+  let r := Z.to_nat (pt ps - 1) in
+  let npad := (r - (length ins) mod r)%nat in
+  let padded := ins ++ [one s] ++ repeat ZERO (npad - 1) in
+  let blocks := chunks (length padded) r padded in
+  st <- fold_left (fun (acc : G (list slc)) blk =>
+                     sp <- acc ;;
+                     match sp with
+                     | [] => static_raise IndexError
+                     | c0 :: rate => permute_m ps (c0 :: map (fun ab => add (fst ab) (snd ab)) (combine rate blk))
+                     end) blocks (ret (repeat ZERO (Z.to_nat (pt ps)))) ;;
+  ret (tl st).
+(* ggh_hash_nonplain: total = 0; total = total + b * SHA512_prng(i); total.value %= PRIME *)
+Definition ggh_m (coeffs : list Z) (bits : list pyval) : G pyval :=
+  fold_left (fun (acc : G pyval) bc =>
+               t <- acc ;; m <- op2 OMul (fst bc) (PInt (snd bc)) ;; s <- op2 OAdd t m ;;
+               match s with
+               | PLC x => ret (PLC (recast_modp x))
+               | _ => static_raise AttributeError          (* 'int' object has no attribute 'value' *)
+               end) (combine bits coeffs) (ret (PInt 0)).
+
 Fixpoint gen_stmt (st : stmt) (r : regs) {struct st} : G regs :=
   let store d v := (v' <- name_val v ;; emit_out v' ;;; ret (rset r d v')) in
   match st with
@@ -375,6 +432,22 @@ Fixpoint gen_stmt (st : stmt) (r : regs) {struct st} : G regs :=
       | _ => static_raise RuntimeError
       end
   | SBSet _ _ | SBGet _ _ | SOIf _ _ _ _ | SOWhile _ _ _ _ | SBreakIf _ | SOFor _ _ _ _ _ _ => static_raise ModelError   (* block API only at statement level *)
+  | SPermute d ps src =>
+      match rget r src with
+      | PList l => match as_lcs l with
+                   | Some xs => ys <- permute_m ps xs ;; store d (PList (map PLC ys))
+                   | None => static_raise TypeError end
+      | _ => static_raise TypeError end
+  | SPoseidon d ps src =>
+      match rget r src with
+      | PList l => match as_lcs l with
+                   | Some xs => ys <- poseidon_hash_m ps xs ;; store d (PList (map PLC ys))
+                   | None => static_raise RuntimeError end          (* Can only hash lists of LinCombs *)
+      | _ => static_raise RuntimeError end
+  | SGgh d coeffs src =>
+      match rget r src with
+      | PList l => v <- ggh_m coeffs l ;; store d v
+      | _ => static_raise TypeError end
   | SPack d k src => v <- pack_v k (rget r src) ;; store d v
   | SUnpack d k src => match rget r src with PList bits => v <- unpack_v k bits 0 ;; store d v | _ => static_raise TypeError end
   | SSnark d args body res =>
